@@ -55,6 +55,111 @@ def check_split_args_quotes(ctx, u, R):
               'split_args starts tokens elsewhere than on the first non-space character after inter-argument space (%s): phantom or split arguments' % why)
 
 
+
+def split_context_transitions(ctx, u, sc, R):
+    """One turn of split_context's scanning loop is evaluated (E-TABLE) for every combination of
+    (stack top class, escaped flag, character class, max_splits state) and compared with the stateful
+    scheme: close on the unescaped matching closer; inside quotes a backslash escapes the next
+    character; brackets and quotes open outside quotes; a top-level delimiter splits.  The loop's
+    variables are found by type and role, not by name.  Returns False when the loop could not be set up."""
+    from peval import PEval, Str as PStr, VecL, Undecided as PUnd, Fault as PFault, _Continue, _Break
+    body = body_of(sc)
+    ps = params_of(sc)
+    if len(ps) != 3:
+        return False
+    sp, dp, mp = ps
+    loops = [x for x in stmts_of(body) if x.get('kind') in ('ForStmt', 'WhileStmt')]
+    if len(loops) != 1:
+        return False
+    lp = loops[0]
+    lb = loop_body(lp)
+    pre = [v for st in stmts_of(body) if st.get('kind') == 'DeclStmt' and st.get('_off', 0) < lp.get('_off', 0) for v in kids(st) if v.get('kind') == 'VarDecl']
+    if lp.get('kind') == 'ForStmt' and for_parts(lp)[0] is not None:
+        pre += [v for v in walk(for_parts(lp)[0]) if v.get('kind') == 'VarDecl']
+    stacks = [v for v in pre if (dtype(v) or '').replace('const ', '').startswith('std::vector<char') or ('basic_string' in (dtype(v) or ''))]
+    rets = [v for v in pre if (dtype(v) or '').startswith('std::vector<std::basic_string') or (dtype(v) or '').startswith('std::vector<std::string')]
+    stacks = [v for v in stacks if v not in rets]
+    flags = [v for v in pre if dtype(v) == 'bool']
+    sizes = [v for v in pre if dtype(v) == 'unsigned long']
+    cond = for_parts(lp)[2] if lp.get('kind') == 'ForStmt' else while_parts(lp)[0]
+    zs = [v for v in sizes if any((ref_decl(y) or {}).get('id') == v['id'] for y in walk(cond))] if cond is not None else []
+    starts = [v for v in sizes if v not in zs]
+    if not (len(stacks) == 1 and len(rets) == 1 and len(flags) == 1 and len(zs) == 1 and len(starts) == 1):
+        return False
+    stack_v, ret_v, esc_v, z_v, start_v = stacks[0], rets[0], flags[0], zs[0], starts[0]
+    stack_is_str = 'basic_string' in (dtype(stack_v) or '')
+    PE = PEval([u], max_depth=6)
+    DELIM = ord(',')
+    chars = [ord(c) for c in "()[]{}<>'\"\\,a "]
+    closers = {ord('('): ord(')'), ord('['): ord(']'), ord('{'): ord('}'), ord('<'): ord('>'), ord("'"): ord("'"), ord('"'): ord('"')}
+    stacks_ = [b'', b')', b']', b'}', b'>', b"'", b'"', b")'", b'")', b']"']
+    n_ok, bad, und = 0, None, None
+    for stk in stacks_:
+        for esc in (0, 1):
+            for c in chars:
+                for (mx, have) in ((0, 0), (1, 0), (1, 1), (2, 1)):
+                    prefix = b'pq'
+                    text = prefix + bytes([c]) + b'r'
+                    env = {sp['id']: PStr(text), dp['id']: DELIM, mp['id']: mx,
+                           stack_v['id']: (PStr(stk) if stack_is_str else VecL(list(stk))), esc_v['id']: esc,
+                           ret_v['id']: VecL([PStr(b'x')] * have), z_v['id']: len(prefix), start_v['id']: 0}
+                    try:
+                        try:
+                            PE.run([lb], env)
+                        except _Continue:
+                            pass
+                        except _Break:
+                            und = 'the loop body leaves the loop'
+                            break
+                    except PFault as e_:
+                        bad = bad or ((stk, esc, c, mx, have), 'evaluation faults: %s' % e_)
+                        continue
+                    except PUnd as e_:
+                        und = str(e_)
+                        break
+                    st_after = env[stack_v['id']]
+                    got_stack = bytes(st_after.b) if isinstance(st_after, PStr) else bytes(v_ & 0xFF for v_ in st_after.items)
+                    got_esc = 1 if env[esc_v['id']] else 0
+                    got_split = len(env[ret_v['id']].items) - have
+                    # the stateful scheme
+                    w_stack, w_esc, w_split = bytearray(stk), esc, 0
+                    if not esc and stk and c == stk[-1]:
+                        w_stack.pop()
+                    else:
+                        inq = bool(stk) and stk[-1] in (ord("'"), ord('"'))
+                        if esc:
+                            w_esc = 0
+                        elif inq and c == ord('\\'):
+                            w_esc = 1
+                        if not inq:
+                            if c in closers:
+                                w_stack.append(closers[c])
+                            elif not stk and c == DELIM and (mx == 0 or have < mx):
+                                w_split = 1
+                    ok = got_stack == bytes(w_stack) and got_esc == w_esc and got_split == w_split
+                    if ok and w_split:
+                        piece = env[ret_v['id']].items[-1]
+                        ok = isinstance(piece, PStr) and bytes(piece.b) == text[:len(prefix)] and env[start_v['id']] == len(prefix) + 1
+                    if ok:
+                        n_ok += 1
+                    elif bad is None:
+                        bad = ((stk, esc, c, mx, have), 'open contexts %r, escaped=%d, character %r (max_splits=%d, %d piece(s) so far): the turn leaves contexts %r, escaped=%d, %d new piece(s); the stateful scheme gives contexts %r, escaped=%d, %d new piece(s)' % (
+                            stk.decode('latin1'), esc, chr(c), mx, have, got_stack.decode('latin1'), got_esc, got_split, bytes(w_stack).decode('latin1'), w_esc, w_split))
+                if und:
+                    break
+            if und:
+                break
+        if und:
+            break
+    if und:
+        ctx.undecided(R, 'split_context|transitions', lp, 'one turn of the scanning loop could not be evaluated (%s)' % und)
+        return False
+    if bad:
+        ctx.bad(R, 'split_context|transitions', lp, 'split_context: ' + bad[1])
+    else:
+        ctx.ok(R, 'split_context|transitions', lp, '%d (contexts, escaped, character, max_splits) combinations: every turn follows the stateful bracket/quote/escape scheme' % n_ok)
+    return True
+
 def run(ctx):
     ctx.rule('C08-R1', 'join: the delimiter is emitted by item position (first-flag / index), never by a predicate over the accumulated output; every item is appended', 6)
     ctx.rule('C08-R2', 'split: loop admits token_start == size() (trailing empty piece), max_splits stops the search not the emission, tail pushed then break; string and wstring versions identical; split_context pushes the tail', 8)
@@ -298,12 +403,31 @@ def run(ctx):
         ts = [t for f in fs for t in walk(body_of(f)) if t.get('kind') == 'CXXThrowExpr']
         ctx.check(not ts, R, q.split('::')[-1] + '|no-throw', ts[0] if ts else fs[0], 'contains no throw', '%s now throws (%s): the helpers are total' % (q, src_text(ts[0], 60) if ts else ''))
     sra = u.func('phosg::str_replace_all')[0]
-    asg = sorted(nf(x['inner'][1]) for x in walk(body_of(sra)) if x.get('kind') == 'BinaryOperator' and x.get('opcode') == '=' and canon(x['inner'][0]) == 'read_offset')
     # after a match the cursor moves just past it (never by less: an empty advance would loop); with no
-    # match it moves to the end or the loop is left
-    past = [a_ for a_ in asg if a_ == '(find_offset + target_size)']
-    rest = [a_ for a_ in asg if a_ != '(find_offset + target_size)']
-    ctx.check(len(past) == 1 and all(a_ == 's.size()' for a_ in rest), R, 'str_replace_all|progress', sra, 'read offset moves to the end (or the loop is left) or just past the match', 'read_offset is assigned %s' % asg)
+    # match it moves to the end or the loop is left.  Names are not assumed: the cursor is the start
+    # argument of the find() call, the match position is whatever holds find()'s result.
+    from guard import subst_locals as _sl
+    finds = [c for c in walk(body_of(sra)) if c.get('kind') == 'CXXMemberCallExpr' and call_name(c) == 'find' and len(call_args(c)) >= 2]
+    if len(finds) != 1 or ref_decl(call_args(finds[0])[1]) is None:
+        ctx.undecided(R, 'str_replace_all|progress', sra, 'str_replace_all is not built around one s.find(target, cursor, n) call')
+    else:
+        fc = finds[0]
+        cur = ref_decl(call_args(fc)[1])
+        hv = enclosing(fc, ('VarDecl',))
+        mname = hv.get('name') if hv is not None else None
+        tlen = _sl(nf(call_args(fc)[2]), fc) if len(call_args(fc)) > 2 else None
+        asgs = [x for x in walk(body_of(sra)) if x.get('kind') == 'BinaryOperator' and x.get('opcode') == '=' and (ref_decl(x['inner'][0]) or {}).get('id') == cur['id']]
+        past, other = [], []
+        for x in asgs:
+            rhs = strip(x['inner'][1])
+            ok_ = False
+            if rhs.get('kind') == 'BinaryOperator' and rhs.get('opcode') == '+' and mname and tlen:
+                ops_ = [(canon(o_), _sl(nf(o_), x)) for o_ in rhs['inner']]
+                ok_ = any(a_[0] == mname and b_[1] == tlen for a_, b_ in (ops_, ops_[::-1]))
+            (past if ok_ else other).append(x)
+        end_ok = all(_sl(nf(x['inner'][1]), x) in ('s.size()', 's.length()') for x in other)
+        ctx.check(len(past) >= 1 and end_ok and tlen not in (None, '0'), R, 'str_replace_all|progress', sra, 'the cursor moves to the end (or the loop is left) or to match + target length',
+                  'the cursor %s of str_replace_all is assigned %s: after a match it must move to (match position + %s)' % (cur.get('name'), [nf(x['inner'][1]) for x in asgs], tlen))
     # starts_with / ends_with compare positions
     for nm, want in (('starts_with', '0'), ('ends_with', '(s.length() - end.length())')):
         f = u.func('phosg::' + nm)[0]
@@ -317,27 +441,29 @@ def run(ctx):
 
     # ---- R5
     R = 'C08-R5'
-    for nm in ('split_context',):
-        f = u.func('phosg::' + nm)[0]
-        back = [x for x in walk(body_of(f)) if x.get('kind') in ('ArraySubscriptExpr', 'CXXOperatorCallExpr') and 'z - 1' in canon(x) and canon(x).startswith('s[')]
-        ctx.check(not back, R, nm + '|no-look-behind', back[0] if back else f, 'no test of the previous character', 'escape detection looks at the previous character (%s): an escaped backslash before a quote is misread as escaping the quote' % (canon(back[0]) if back else ''))
-    esc = next((v for v in walk(body_of(sc)) if v.get('kind') == 'VarDecl' and dtype(v) == 'bool' and 'escap' in (v.get('name') or '')), None)
-    oke = False
-    why = 'no escape-state variable'
-    if esc is not None:
-        asg = [x for x in walk(body_of(sc)) if x.get('kind') == 'BinaryOperator' and x.get('opcode') == '=' and (ref_decl(x['inner'][0]) or {}).get('id') == esc['id']]
-        sets = [x for x in asg if int_value(x['inner'][1]) == 1]
-        clears = [x for x in asg if int_value(x['inner'][1]) == 0]
-        why = 'state variable %s: %d set / %d clear sites' % (esc['name'], len(sets), len(clears))
-        if len(sets) == 1 and len(clears) == 1 and int_value(kids(esc)[-1]) == 0:
-            fs_set = [(nf(n_), p_) for n_, p_ in atoms(path_facts(sets[0]))]
-            fs_clr = [(nf(n_), p_) for n_, p_ in atoms(path_facts(clears[0]))]
-            set_ok = (esc['name'], False) in fs_set and any(n_.startswith('(92 == s[z]') or n_.startswith('(s[z] == 92') for n_, p_ in fs_set if p_) and ('in_quoted_string', True) in fs_set
-            clr_ok = (esc['name'], True) in fs_clr
-            closes = [c for c in walk(body_of(sc)) if c.get('kind') == 'CXXMemberCallExpr' and call_name(c) == 'pop_back']
-            close_ok = len(closes) == 1 and (esc['name'], False) in [(nf(n_), p_) for n_, p_ in atoms(path_facts(closes[0]))]
-            oke = set_ok and clr_ok and close_ok
-            why += '; set under (!escaped, in quotes, backslash)=%s, cleared under escaped=%s, closing bracket only when not escaped=%s' % (set_ok, clr_ok, close_ok)
-    ctx.check(oke, R, 'split_context|escape-state', esc or sc, why, 'escape tracking in split_context is not the stateful scheme: ' + why)
+    decided = split_context_transitions(ctx, u, sc, R)
+    if not decided:
+        for nm in ('split_context',):
+            f = u.func('phosg::' + nm)[0]
+            back = [x for x in walk(body_of(f)) if x.get('kind') in ('ArraySubscriptExpr', 'CXXOperatorCallExpr') and 'z - 1' in canon(x) and canon(x).startswith('s[')]
+            ctx.check(not back, R, nm + '|no-look-behind', back[0] if back else f, 'no test of the previous character', 'escape detection looks at the previous character (%s): an escaped backslash before a quote is misread as escaping the quote' % (canon(back[0]) if back else ''))
+        esc = next((v for v in walk(body_of(sc)) if v.get('kind') == 'VarDecl' and dtype(v) == 'bool' and 'escap' in (v.get('name') or '')), None)
+        oke = False
+        why = 'no escape-state variable'
+        if esc is not None:
+            asg = [x for x in walk(body_of(sc)) if x.get('kind') == 'BinaryOperator' and x.get('opcode') == '=' and (ref_decl(x['inner'][0]) or {}).get('id') == esc['id']]
+            sets = [x for x in asg if int_value(x['inner'][1]) == 1]
+            clears = [x for x in asg if int_value(x['inner'][1]) == 0]
+            why = 'state variable %s: %d set / %d clear sites' % (esc['name'], len(sets), len(clears))
+            if len(sets) == 1 and len(clears) == 1 and int_value(kids(esc)[-1]) == 0:
+                fs_set = [(nf(n_), p_) for n_, p_ in atoms(path_facts(sets[0]))]
+                fs_clr = [(nf(n_), p_) for n_, p_ in atoms(path_facts(clears[0]))]
+                set_ok = (esc['name'], False) in fs_set and any(n_.startswith('(92 == s[z]') or n_.startswith('(s[z] == 92') for n_, p_ in fs_set if p_) and ('in_quoted_string', True) in fs_set
+                clr_ok = (esc['name'], True) in fs_clr
+                closes = [c for c in walk(body_of(sc)) if c.get('kind') == 'CXXMemberCallExpr' and call_name(c) == 'pop_back']
+                close_ok = len(closes) == 1 and (esc['name'], False) in [(nf(n_), p_) for n_, p_ in atoms(path_facts(closes[0]))]
+                oke = set_ok and clr_ok and close_ok
+                why += '; set under (!escaped, in quotes, backslash)=%s, cleared under escaped=%s, closing bracket only when not escaped=%s' % (set_ok, clr_ok, close_ok)
+        ctx.check(oke, R, 'split_context|escape-state', esc or sc, why, 'escape tracking in split_context is not the stateful scheme: ' + why)
     check_split_args_quotes(ctx, u, R)
     ctx.note('Not decided: the algebraic laws as such (piece count, no delimiter inside pieces, trim/replace/case equality with reference definitions).')
